@@ -262,7 +262,7 @@ impl Ty {
 pub fn limb_values(full: bool) -> Vec<BigInt> {
     let mut v = vec![BigInt::zero(), BigInt::one(), pow2(64), pow2(128) - 2, pow2(128) - 1];
     if full {
-        v.extend([BigInt::from(2), pow2(63), pow2(64) - 1, pow2(127)]);
+        v.extend([pow2(64) - 1, pow2(127)]);
     }
     v.sort();
     v
